@@ -171,6 +171,10 @@ class Monitor(object):
     def on_leaf(self, sim, post, ctx):
         return []
 
+    def on_state(self, sim, post, ctx):
+        """Called once for every newly discovered state (ctx.fresh_pre() restores it)."""
+        return []
+
     def on_scenario_end(self, ctx):
         return []
 
@@ -178,10 +182,14 @@ class Monitor(object):
 class StepCtx(object):
     """Facilities a monitor may use while judging one transition."""
 
-    def __init__(self, scn, cfg, pre_snap):
+    def __init__(self, scn, cfg, pre_snap, hist_fn=None):
         self.scn = scn
         self.cfg = cfg
         self.pre_snap = pre_snap
+        self.hist_fn = hist_fn
+
+    def history(self):
+        return self.hist_fn() if self.hist_fn else None
 
     def fresh_pre(self):
         return Sim.restore(self.scn, self.pre_snap)
@@ -219,6 +227,7 @@ def explore(scn, cfg, monitor_classes, deadline=None, collect_samples=2):
     samples = []
     complete = True
     outdeg = collections.Counter()
+    has_on_state = any(type(m).on_state is not Monitor.on_state for m in monitors)
 
     def history(node):
         out = []
@@ -245,7 +254,7 @@ def explore(scn, cfg, monitor_classes, deadline=None, collect_samples=2):
             stats["horizon_hit"] += 1
             complete = False
         progressed = False
-        ctx = StepCtx(scn, cfg, snap)
+        ctx = StepCtx(scn, cfg, snap, hist_fn=lambda n=node: history(n))
         first = True
         for (move, cost, btype) in moves:
             if not first:
@@ -307,7 +316,29 @@ def explore(scn, cfg, monitor_classes, deadline=None, collect_samples=2):
             parents.append((node, move))
             depth.append(depth[node] + 1)
             nid = len(parents) - 1
-            frontier.append((nid, sim.snapshot(), post))
+            nsnap = sim.snapshot()
+            if has_on_state:
+                sctx = StepCtx(scn, cfg, nsnap, hist_fn=lambda n=nid: history(n))
+                svs = []
+                for m in monitors:
+                    for v in m.on_state(sim, post, sctx) or []:
+                        v["property"] = v.get("property", m.prop)
+                        svs.append(v)
+                if svs:
+                    for v in svs:
+                        sk = (v["property"], v["kind"], json.dumps(v.get("sig", {}), sort_keys=True))
+                        stats["violating_transitions"] += 1
+                        if sk in vseen:
+                            continue
+                        vseen.add(sk)
+                        v["scenario"] = scn.to_json()
+                        v["history"] = history(nid)
+                        v["cfg"] = cfg.to_json()
+                        v["on_state"] = True
+                        violations.append(v)
+                    stats["pruned_subtrees"] += 1
+                    continue
+            frontier.append((nid, nsnap, post))
         if not progressed:
             # Leaf: nothing new can happen from here (complete history).
             leaves += 1
@@ -362,19 +393,28 @@ def run_path(scn, cfg, monitor_classes, moves):
     pre = sim.view()
     for i, move in enumerate(moves):
         snap = sim.snapshot()
-        ctx = StepCtx(scn, cfg, snap)
+        ctx = StepCtx(scn, cfg, snap, hist_fn=lambda k=i: list(moves[:k]))
         res = sim.apply(move)
         if move[0] == "render":
             sim.h["rendered"] = True
         post = sim.view()
+        stepv = []
         for m in monitors:
             for v in m.on_step(pre, move, sim, res, post, ctx) or []:
                 v["property"] = v.get("property", m.prop)
                 v["at"] = i
-                out.append(v)
+                stepv.append(v)
+        out.extend(stepv)
+        if not stepv:
+            sctx = StepCtx(scn, cfg, sim.snapshot(), hist_fn=lambda k=i: list(moves[: k + 1]))
+            for m in monitors:
+                for v in m.on_state(sim, post, sctx) or []:
+                    v["property"] = v.get("property", m.prop)
+                    v["at"] = i
+                    out.append(v)
         pre = post
     snap = sim.snapshot()
-    ctx = StepCtx(scn, cfg, snap)
+    ctx = StepCtx(scn, cfg, snap, hist_fn=lambda: list(moves))
     for m in monitors:
         for v in m.on_leaf(sim, pre, ctx) or []:
             v["property"] = v.get("property", m.prop)
